@@ -436,6 +436,19 @@ func emptinessLit(x *ssa.BinOp, a, b string, outcome bool) (Lit, bool) {
 	return Lit{}, false
 }
 
+// litOfEq is litOf for an (in)equality given by its operands.
+func litOfEq(x, y ssa.Value, op token.Token, outcome bool) Lit {
+	a, b := desc(x), desc(y)
+	if isConst(x) && !isConst(y) || (!isConst(y) && !isConst(x) && a > b) {
+		a, b = b, a
+	}
+	pos := outcome
+	if op == token.NEQ {
+		pos = !pos
+	}
+	return Lit{"(" + a + " == " + b + ")", pos}
+}
+
 // Point is a program point: instruction I of block B.
 type Point struct {
 	B *ssa.BasicBlock
@@ -597,7 +610,7 @@ func (w *Walker) Run(start Point) *Witness {
 	callNo := map[*ssa.Call]int{}
 	var vals []ssa.Value
 	valNo := map[ssa.Value]int{}
-	record := func(env string, call *ssa.Call, v ssa.Value) string {
+	record := func(env string, call *ssa.Call, idx int, v ssa.Value) string { // G4: per result index
 		ci, ok := callNo[call]
 		if !ok {
 			ci = len(callNo)
@@ -609,19 +622,19 @@ func (w *Walker) Run(start Point) *Witness {
 			vals = append(vals, v)
 			valNo[v] = vi
 		}
-		pre := fmt.Sprintf("\x03c%d=", ci)
+		pre := fmt.Sprintf("\x03c%d.%d=", ci, idx)
 		if i := strings.Index(env, pre); i >= 0 {
 			j := strings.Index(env[i:], "\x02")
 			env = env[:i] + env[i+j+1:]
 		}
 		return env + pre + fmt.Sprint(vi) + "\x02"
 	}
-	lookup := func(env string, call *ssa.Call) ssa.Value {
+	lookup := func(env string, call *ssa.Call, idx int) ssa.Value { // G4: per result index
 		ci, ok := callNo[call]
 		if !ok {
 			return nil
 		}
-		pre := fmt.Sprintf("\x03c%d=", ci)
+		pre := fmt.Sprintf("\x03c%d.%d=", ci, idx)
 		i := strings.Index(env, pre)
 		if i < 0 {
 			return nil
@@ -695,8 +708,13 @@ func (w *Walker) Run(start Point) *Witness {
 				if fr != nil {
 					cont := after(fr.call)
 					env := stableOnly(it.st.env)
-					if len(ret.Results) == 1 {
-						env = record(env, fr.call, phiEdge(ret.Results[0], b, it.st))
+					// G4: every result of the return taken, through result slots
+					for ri := range ret.Results {
+						rv := retVal(ret, ri)
+						if rv == ret.Results[ri] {
+							rv = phiEdge(rv, b, it.st)
+						}
+						env = record(env, fr.call, ri, rv)
 					}
 					push(cont.B, -1, cont.I, qi, nil, env, fr.parent)
 				} else {
@@ -800,6 +818,10 @@ func (w *Walker) Run(start Point) *Witness {
 			// a condition that is the result of an inlined helper call: the value it returned on this path
 			flip := false
 			var resolvedFor *ssa.Call
+			var eqX, eqY ssa.Value // a comparison with a resolved operand
+			var eqOp token.Token
+			var eqNeg bool
+			var eqCalls []*ssa.Call
 			{
 				base, neg := cond, false
 				for {
@@ -810,8 +832,65 @@ func (w *Walker) Run(start Point) *Witness {
 					base, neg = un.X, !neg
 				}
 				if cl, ok := base.(*ssa.Call); ok && newHelperCallee(cl) != nil {
-					if v := lookup(it.st.env, cl); v != nil {
+					if v := lookup(it.st.env, cl, 0); v != nil {
 						cond, flip, resolvedFor = v, neg, cl
+					}
+				}
+				// G4: result #i of an inlined helper call
+				if ex, ok := base.(*ssa.Extract); ok {
+					if cl, ok := ex.Tuple.(*ssa.Call); ok && newHelperCallee(cl) != nil {
+						if v := lookup(it.st.env, cl, ex.Index); v != nil {
+							cond, flip, resolvedFor = v, neg, cl
+						}
+					}
+				}
+				// G4: comparison of such a result with a constant, when the value
+				// returned on this path is a constant too (x, nil / 0, false ...)
+				if bo, ok := base.(*ssa.BinOp); ok && (bo.Op == token.EQL || bo.Op == token.NEQ) {
+					resolveOp := func(v ssa.Value) ssa.Value {
+						switch x := v.(type) {
+						case *ssa.Extract:
+							if cl, ok := x.Tuple.(*ssa.Call); ok && newHelperCallee(cl) != nil {
+								if r := lookup(it.st.env, cl, x.Index); r != nil {
+									return r
+								}
+							}
+						case *ssa.Call:
+							if newHelperCallee(x) != nil {
+								if r := lookup(it.st.env, x, 0); r != nil {
+									return r
+								}
+							}
+						}
+						return v
+					}
+					x, y := resolveOp(bo.X), resolveOp(bo.Y)
+					cx, okx := x.(*ssa.Const)
+					cy, oky := y.(*ssa.Const)
+					if okx && oky && (x != bo.X || y != bo.Y) {
+						eq, known := false, false
+						switch {
+						case cx.Value == nil && cy.Value == nil:
+							eq, known = true, true // nil == nil (zero values of the same type)
+						case cx.Value != nil && cy.Value != nil:
+							eq, known = constant.Compare(cx.Value, token.EQL, cy.Value), true
+						}
+						if known {
+							val := eq == (bo.Op == token.EQL)
+							cond, flip, resolvedFor = ssa.NewConst(constant.MakeBool(val), bo.Type()), neg, nil
+						}
+					} else if x != bo.X || y != bo.Y {
+						// the helper returned a computed value (`return v, err`): the caller's
+						// `err != nil` is the test of that value, described for that call
+						eqX, eqY, eqOp, eqNeg = x, y, bo.Op, neg
+						for _, o := range []ssa.Value{bo.X, bo.Y} {
+							if ex, ok := o.(*ssa.Extract); ok {
+								o = ex.Tuple
+							}
+							if cl, ok := o.(*ssa.Call); ok && newHelperCallee(cl) != nil {
+								eqCalls = append(eqCalls, cl)
+							}
+						}
 					}
 				}
 			}
@@ -825,7 +904,22 @@ func (w *Walker) Run(start Point) *Witness {
 					continue
 				}
 				var l Lit
-				if resolvedFor != nil {
+				if eqX != nil {
+					saved := map[*ssa.Function]*ssa.Call{}
+					for _, cl := range eqCalls {
+						h := cl.Call.StaticCallee()
+						saved[h] = descBind[h]
+						descBind[h] = cl
+					}
+					l = litOfEq(eqX, eqY, eqOp, (k == 0) != eqNeg)
+					for h, prev := range saved {
+						if prev != nil {
+							descBind[h] = prev
+						} else {
+							delete(descBind, h)
+						}
+					}
+				} else if resolvedFor != nil {
 					h := resolvedFor.Call.StaticCallee()
 					prev, had := descBind[h]
 					descBind[h] = resolvedFor
@@ -845,7 +939,7 @@ func (w *Walker) Run(start Point) *Witness {
 				if s.Dominates(b) {
 					env = loopReset(env) // loop back edge: values are redefined
 				}
-				if resolvedFor == nil {
+				if resolvedFor == nil && eqX == nil {
 					var ok bool
 					if env, ok = edgeEnv(env, cond, l); !ok {
 						continue // contradicts an earlier test of the same atom
